@@ -30,3 +30,5 @@ def run(ck):
     pipeline.overflow_dispatch(ck, "C02.R6", "C03.R2", flags.handler_roles_quiet(ck.prog))
     fresh.no_hidden_state(ck, "C20.R8")                  # results depend on the documented state only (no caches / memos)
     strings.base_numeral(ck, "C11.R7")
+    strings.prefix_helper(ck, "C11.R8")
+    strings.rank_dispatch(ck, "C11.R9")
